@@ -118,6 +118,7 @@ class Repo:
         inv = normalize.load_inventory()
         normalize.unroll_constant_loops(self.modules, self.norm_log)
         normalize.desugar_ifexp(self.modules)
+        normalize.project_records(self.modules, self.norm_log)
         if inv is not None:
             normalize.apply_renames(self.modules, normalize.plan_renames(self.modules, inv), self.norm_log)
         self._index()
@@ -126,6 +127,7 @@ class Repo:
                 if not normalize.inline_new_helpers(self, inv, self.norm_log):
                     break
                 normalize.desugar_ifexp(self.modules)   # conditional expressions that came in with an expanded helper
+                normalize.project_records(self.modules, self.norm_log)
                 self._index()
 
     def _index(self):
